@@ -219,8 +219,12 @@ def run(prog, ctx):
                 sts = [st for lhs, rhs, st, kind in query.stores(g) if render(lhs) == "%s->%s" % (v, fl) and rhs is not None and render(rhs) == fl]
                 blocks = set(gcfg.block_of(s) for s in sts)
                 ok = bool(sts) and all(gcfg.block_of(x) not in gcfg.reachable(gcfg.block_of(nc), avoid_blocks=blocks) or gcfg.block_of(x) in blocks for x in gates)
+                other = [st for lhs, rhs, st, kind in query.stores(g) if render(lhs) == "%s->%s" % (v, fl) and rhs is not None and render(rhs) != fl]
                 if ok and gates:
                     ctx.ok("O5", "%s: per-file object gets %s" % (fname, fl), sts[0].where, "%s->%s = %s on every path from creation to the parse" % (v, fl, fl))
+                elif other and not sts and fl not in g.param_names():
+                    ctx.inconclusive("O5", "%s: per-file object gets %s" % (fname, fl), other[0].where,
+                                     "the flag is taken from `%s`, not from a parameter of %s" % (render(other[0].children[1]), fname))
                 else:
                     ctx.fail("O5", "%s: per-file object gets %s" % (fname, fl), nc.where,
                              "a file can be parsed with %s unset although the caller asked for it" % fl, key="flag-store:%s:%s" % (fname, fl))
@@ -228,6 +232,9 @@ def run(prog, ctx):
     for c in tr.calls("check_conf_dir"):
         cpn = prog.fn("check_conf_dir").param_names()
         for fl in FLAGS:
+            if fl not in cpn:
+                ctx.inconclusive("O5", "traverse_conf_dirs forwards %s" % fl, c.where, "check_conf_dir has no parameter `%s` any more" % fl)
+                continue
             got = render(c.call_args()[cpn.index(fl)])
             if got == fl:
                 ctx.ok("O5", "traverse_conf_dirs forwards %s" % fl, c.where, "own parameter")
@@ -236,6 +243,9 @@ def run(prog, ctx):
     for c in hist.calls("traverse_conf_dirs"):
         tpn = tr.param_names()
         for fl in FLAGS:
+            if fl not in tpn:
+                ctx.inconclusive("O5", "readConfigHistoryWithCallback forwards %s" % fl, c.where, "traverse_conf_dirs has no parameter `%s` any more" % fl)
+                continue
             got = render(c.call_args()[tpn.index(fl)])
             if got == fl:
                 ctx.ok("O5", "history builder forwards %s to the drop-in scan" % fl, c.where, "own parameter")
